@@ -5,10 +5,11 @@ package main
 // only if the rule holds for exactly the bytes being verified.  Also: byte flips of a signed image.
 
 import (
-	"io"
 	"bytes"
 	"crypto/sha256"
+	"crypto/x509"
 	"fmt"
+	"io"
 
 	"github.com/foxboron/go-uefi/authenticode"
 )
@@ -71,6 +72,10 @@ func attachSignatures(ti *testImage, blobs ...[]byte) []byte {
 	return b
 }
 
+var stalePE *authenticode.PECOFFBinary
+var staleCert *x509.Certificate
+var staleVerdict string
+
 func runImgSym(sc M) {
 	id := sc["sc"]
 	imgs := getTestImages()
@@ -94,7 +99,15 @@ func runImgSym(sc M) {
 				err = e
 				return nil
 			}
+			// the image parsed before this one still gives the verdict it gave then (a tool that parses a batch first and verifies afterwards)
+			if stalePE != nil {
+				ok0, err0 := stalePE.Verify(staleCert)
+				if v0 := verdict(ok0, err0, Outcome{Kind: "value"}); (v0 == "true") != (staleVerdict == "true") {
+					bad = append(bad, fmt.Sprintf("stale: an image parsed earlier verified %s when it was parsed and %s after another image was parsed", staleVerdict, v0))
+				}
+			}
 			ok, err = p.Verify(cert)
+			stalePE, staleCert, staleVerdict = p, cert, verdict(ok, err, Outcome{Kind: "value"})
 			return nil
 		})
 		r := verdict(ok, err, o)
